@@ -10,7 +10,9 @@
 // ntp.off / ntp.meta / ntp.ts are.
 //
 //	-prop c03   timing / pairing scripts (offset, delays, drop, duplicate, stale, basic/interleaved)
-//	-prop c05   acceptance scripts (random bytes, single-field mutants, foreign sources)
+//	-prop c05   acceptance scripts (random bytes, single-field mutants, foreign sources, origin
+//	            echo per request mode, NTS, SCION packet authenticator with a key available)
+//	-prop c13   the SCION client with DRKey authentication enabled only (client clause of C13)
 package main
 
 import (
@@ -24,7 +26,12 @@ import (
 	"verifharness/lib"
 )
 
-var prop = flag.String("prop", "c03", "c03|c05: which generator streams to run")
+var prop = flag.String("prop", "c03", "c03|c05|c13: which generator streams to run")
+
+// probeMalformedAuth adds responses whose authenticator option data is not 28 bytes long to the
+// SPAO stream. Off by default: with a key available the client panics on them in
+// scion.PacketAuthOptMetadata (reported finding, C08's clause; see notes/C13.md).
+var probeMalformedAuth = flag.Bool("probe-malformed-auth", false, "SPAO stream: include authenticator options of wrong length")
 
 func i64(s string) int64 {
 	v, err := strconv.ParseInt(s, 10, 64)
@@ -117,6 +124,11 @@ func gen(c *lib.Ctx) {
 		genC05SCION(c)
 		genNTS(c, "c05nts-ip", false)
 		genNTS(c, "c05nts-scion", true)
+		genOrigin(c, "c05origin-ip", false)
+		genOrigin(c, "c05origin-scion", true)
+		genSPAO(c, "c05spao")
+	case "c13":
+		genSPAO(c, "c13spao")
 	default:
 		panic("unknown -prop")
 	}
